@@ -260,6 +260,7 @@ def obligations(prop, tier):
                 out.append(_mut("atomic3tree_%s" % cls, "c03_body", {"cls": cls, "N": 3, "L": 3, "faults": "pre", "F": 1, "veto": "tree"}, bounds="N<=3 TreeError-veto"))
                 out.append(_mut("atomic3attr_%s" % cls, "c03_body", {"cls": cls, "N": 3, "L": 3, "faults": "pre", "F": 1, "veto": "attr"}, bounds="N<=3 AttributeError-veto"))
     elif prop == "C16":
+        out.append(_mut("reentrant_pre_attach", "reentrant_body", {"N": 3 if q else 4}, depth=4, bounds="N<=%d, _pre_attach hook that detaches the new parent's first child: the step then still ends with the node as LAST child of new" % (3 if q else 4)))
         for cls in ("mixin_eq", "light_eq"):
             out.append(_mut("hooks_%s" % cls, "c16_body", {"cls": cls, "N": 3, "L": 2, "faults": "none"}, depth=4, bounds="N<=3, no faults, all-equal/falsy node class"))
         for cls in ("mixin", "light"):
@@ -270,6 +271,7 @@ def obligations(prop, tier):
     elif prop == "C18":
         N = 3 if q else 4
         out.append(_mut("lockstep", "c18_body", {"N": N, "L": 3, "faults": "all", "F": 1}, depth=5 if q else 7, bounds="N<=%d F<=1|persistent" % N))
+        out.append(_mut("reentrant_pre_attach", "reentrant_body", {"N": 3 if q else 4}, depth=4, bounds="N<=%d, tree-mutating _pre_attach hook, both mixins must agree" % (3 if q else 4)))
         out.append(_mut("lockstep_nofault_iterables", "c18_body", {"N": 3, "L": 3, "faults": "none"}, depth=5, bounds="N<=3, no faults, list and one-shot iterator arguments"))
         out.append(_mut("lockstep_valuesem4", "c18_body", {"N": 4, "exactN": True, "L": 1, "faults": "none", "mixcls": "mixin_eq", "lightcls": "light_eq"}, depth=6,
                         bounds="N=4, sequences <= 1, no faults, value/container-semantic classes"))
